@@ -38,6 +38,8 @@ var c15Opts = core.Opts{ID: "C15", Quick: 1500, Thorough: 60000}
 
 const c15Upper = 0xFFFF_FF00
 
+var c15Payload = []byte("c15-payload-bytes")
+
 type c15Sealed struct {
 	dir    int // 0: A->B, 1: B->A
 	prio   bool
@@ -50,6 +52,7 @@ type c15Sealed struct {
 
 type c15Dir struct {
 	send, recv   *state.Session
+	sendE, recvE *state.EncryptionSession // what seals / unseals (link sessions in link mode)
 	sendH, recvH *state.EncryptionSessionTestHelper
 	epochS       int // sender epoch (number of wraps seen at seal time)
 	epochR       int // receiver epoch
@@ -84,9 +87,38 @@ func TestC15Rollover(t *testing.T) {
 			{send: sAB, recv: sBA},
 			{send: sBA, recv: sAB},
 		}
+		// Carrier: end-to-end frames under the routers' session, or link frames
+		// under link-layer sessions derived the way the peering handshake does
+		// (link frames only use the regular class).
+		linkMode := c.Weighted("carrier", 2, 1) == 1
+		if linkMode {
+			ea, eb := state.NewEncryptionSession(), state.NewEncryptionSession()
+			kx1, kxT1, err := ea.InitKeyClientStart()
+			if err != nil {
+				c.Fatalf("kx: %v", err)
+			}
+			kx2, kxT2, err := eb.InitKeyServer(kx1, kxT1)
+			if err != nil {
+				c.Fatalf("kx: %v", err)
+			}
+			if err := ea.InitKeyClientComplete(kx2, kxT2); err != nil {
+				c.Fatalf("kx: %v", err)
+			}
+			la, err1 := ea.DeriveSessionFromKX(true, "link layer crypt")
+			lb, err2 := eb.DeriveSessionFromKX(false, "link layer crypt")
+			if err1 != nil || err2 != nil {
+				c.Fatalf("derive link sessions: %v %v", err1, err2)
+			}
+			dirs[0].sendE, dirs[0].recvE = la, lb
+			dirs[1].sendE, dirs[1].recvE = lb, la
+		} else {
+			for _, d := range dirs {
+				d.sendE, d.recvE = d.send.Encryption(), d.recv.Encryption()
+			}
+		}
 		for _, d := range dirs {
-			d.sendH = &state.EncryptionSessionTestHelper{EncryptionSession: d.send.Encryption()}
-			d.recvH = &state.EncryptionSessionTestHelper{EncryptionSession: d.recv.Encryption()}
+			d.sendH = &state.EncryptionSessionTestHelper{EncryptionSession: d.sendE}
+			d.recvH = &state.EncryptionSessionTestHelper{EncryptionSession: d.recvE}
 			d.accepted = [2]map[uint32]bool{{}, {}}
 		}
 		// Place the regular counters.
@@ -116,18 +148,30 @@ func TestC15Rollover(t *testing.T) {
 				mt = frame.RouterCtrl
 			}
 			before := hex.EncodeToString(d.sendH.OutKey())
-			f, err := b.NewFrameV1(addrs[di][0].ID.Addr.IP, addrs[di][1].ID.Addr.IP, mt, nil, []byte("c15-payload-bytes"), nil)
-			if err != nil {
-				c.Fatalf("new frame: %v", err)
-			}
-			if err := f.Seal(d.send); err != nil {
-				c.Fatalf("seal dir%d prio=%v: %v", di, prio, err)
+			var seq uint32
+			var data []byte
+			if linkMode {
+				prio = false
+				lf := make(peering.LinkFrame, peering.FrameOffset+len(c15Payload)+peering.FrameOverhead)
+				copy(lf[peering.FrameOffset:], c15Payload)
+				if err := lf.Seal(d.sendE); err != nil {
+					c.Fatalf("seal link frame dir%d: %v", di, err)
+				}
+				seq, data = lf.SequenceNum(), []byte(lf)
+			} else {
+				f, err := b.NewFrameV1(addrs[di][0].ID.Addr.IP, addrs[di][1].ID.Addr.IP, mt, nil, c15Payload, nil)
+				if err != nil {
+					c.Fatalf("new frame: %v", err)
+				}
+				if err := f.Seal(d.send); err != nil {
+					c.Fatalf("seal dir%d prio=%v: %v", di, prio, err)
+				}
+				seq = f.SequenceNum()
+				data, _ = f.FrameDataWithMargins(0, 0)
+				data = append([]byte(nil), data...)
+				f.ReturnToPool()
 			}
 			after := hex.EncodeToString(d.sendH.OutKey())
-			seq := f.SequenceNum()
-			data, _ := f.FrameDataWithMargins(0, 0)
-			data = append([]byte(nil), data...)
-			f.ReturnToPool()
 			if after != before {
 				if prio {
 					c.Fatalf("sealing a priority frame rolled the key over")
@@ -165,7 +209,15 @@ func TestC15Rollover(t *testing.T) {
 		deliver := func(x *c15Sealed, again bool) {
 			d := dirs[x.dir]
 			cls := c15cls(x.prio)
-			err := c03UnsealCopy(b, x.data, d.recv)
+			var err error
+			if linkMode {
+				lf := peering.LinkFrame(append([]byte(nil), x.data...))
+				if err = lf.Unseal(d.recvE); err == nil && string(lf.LinkData()) != string(c15Payload) {
+					c.Fatalf("dir%d: link frame #%d unsealed to a different payload", x.dir, x.seq)
+				}
+			} else {
+				err = c03UnsealCopy(b, x.data, d.recv)
+			}
 			verdict := 0 // +1 must accept, -1 must reject, 0 either
 			switch {
 			case x.epoch < d.epochR:
@@ -290,15 +342,24 @@ func TestC15Rollover(t *testing.T) {
 				}
 			}
 		}
-		c.Eval(strings.Join(ops, ";"), nt, func() any { return map[string]any{"ops": ops} })
+		if linkMode && (dirs[0].epochR > 0 || dirs[1].epochR > 0) {
+			nt = true
+		}
+		c.Eval(strings.Join(ops, ";"), nt, func() any { return map[string]any{"ops": ops, "carrier_link_frames": linkMode} })
 		if dirs[0].epochR > 0 || dirs[1].epochR > 0 {
 			c.Class("history-with-a-wrap")
 		}
 		if dirs[0].epochR > 0 && dirs[1].epochR > 0 {
 			c.Class("both-directions-wrapped")
 		}
-		if nt {
+		if nt && !linkMode {
 			c.Class("priority-frames-on-both-directions-around-a-wrap")
+		}
+		if linkMode {
+			c.Class("carrier-link-frames")
+			if dirs[0].epochR > 0 || dirs[1].epochR > 0 {
+				c.Class("carrier-link-frames-with-a-wrap")
+			}
 		}
 	})
 }
